@@ -36,7 +36,9 @@ func (st *SlimTrie) Marshal() ([]byte, error) {
 // Since 0.4.3
 func (st *SlimTrie) Unmarshal(buf []byte) error {
 
-	st.inner = &Slim{}
+	// Drop everything derived from the previous content too(vars, levels):
+	// if loading fails, Stat() must not report the previous trie.
+	st.Reset()
 
 	reader := bytes.NewReader(buf)
 
